@@ -56,6 +56,14 @@ def check(v, hists):
                 if e["kind"] == "abci" and e["call"] == "prepare" and e["result"] != "ok":
                     v.violate("C06/prepare-proposal-failed/" + chainlog.err_class(e["result"]), "PrepareProposal failed: " + e["result"][:150], wit)
                 if e["kind"] == "abci" and e["call"] == "process" and e.get("class") in ("decided", "abandoned_honest") and e["result"] != "ok":
+                    prep_ids = []
+                    for pe in evs:
+                        if pe["kind"] == "abci" and pe["call"] == "prepare" and pe.get("block") == e.get("block"):
+                            prep_ids = pe.get("tx_ids") or []
+                    cctx = chainlog.construct_context(e["result"], prep_ids, built_by_id)
+                    if cctx:
+                        v.violate("C06/honest-proposal-rejected/construct" + cctx, "an honest node rejected a block produced by PrepareProposal: " + e["result"][:200], wit)
+                        continue
                     v.violate("C06/honest-proposal-rejected/" + chainlog.err_class(e["result"]), "an honest node rejected a block produced by PrepareProposal: " + e["result"][:150], wit)
                 if e["kind"] == "lab_tx" and e["result"] != "ok" and "non-fatal" not in e["result"] and "NonFatal" not in e["result"]:
                     if not e["result"].startswith("err:`IbcRelay`"):
